@@ -161,7 +161,7 @@ def subst_check(case):
         got = {s.name for s in rt.contracted if s.space == space}
         if got != exp:
             return False, f"contracted {space} indices of {rt} are {got}, lowest available {exp}"
-    m = Model(orbital_space(1, 1), seed=5, braket={"V": 1, "f": 1})
+    m = Model(orbital_space(1, 1), seed=5, braket={"V": 1, "f": 1, "K": -1})
     for asg in all_assignments(targets, m.orbs, limit=6, rng=random.Random(1)):
         if evaluate(term.sympy, asg, m) != evaluate(res.sympy, asg, m):
             return False, f"substitute_contracted changed the value of {term}: {res}"
